@@ -12,7 +12,8 @@ textbook double-layer relations in vp/edl.py; nothing is taken from the code und
   charge_potential sigma from the species, F sum(z n)/A, equals at the REPORTED potential: Gouy-Chapman with the reported MU, EPS_R,
                    TK (diffuse-layer model without explicit layer, and with a Donnan layer); C psi (constant capacitance); CD-MUSIC:
                    sigma0 = C1(psi0-psi1), sigma0+sigma1 = C2(psi1-psi2), sigma0+sigma1+sigma2 = Grahame charge at psi2       1e-8 rel
-                   (+ the solver's own criteria, see ASSUMPTIONS); -diffuse_layer (Borkovec-Westall): coarse 1e-2 Grahame clause only
+                   (+ the solver's own criteria, see ASSUMPTIONS); -diffuse_layer (Borkovec-Westall): gross-error Grahame clause only
+                   (2e-2, |psi| >= 50 mV, I >= 1e-3)
   dl_balance       explicit diffuse layer (-diffuse_layer, -donnan): sum z * (moles in the layer, EDL_SPECIES) = -(surface charge)
 Nothing else is asserted.
 """
@@ -46,8 +47,9 @@ ASSUMPTIONS = ["vp/dbparse.py + vp/formula.py read SURFACE_MASTER_SPECIES / SURF
                "uniquely: the value must lie between the expression without and with a monovalent ion completing electroneutrality",
                "-diffuse_layer (Borkovec-Westall): the layer is a numerical integration of the Poisson-Boltzmann profile, whose charge is "
                "the Grahame charge of the mixed bulk electrolyte; its integration error is not tied to a documented criterion (measured "
-               "on the unchanged tree: <= 3e-4 above 10 mV, several % below 1 mV), so only a coarse consistency clause is asserted "
-               "(1e-2 relative, |psi| >= 10 mV, electroneutral bulk, not with -only_counter_ions); CD-MUSIC with -donnan: no relation "
+               "on the unchanged tree: <= 8e-5 for |psi| >= 50 mV and I >= 1e-3, 1.25e-2 at 10.6 mV and I = 1e-4, several % below 1 mV), "
+               "so only a gross-error clause is asserted (2e-2 relative, |psi| >= 50 mV, I >= 1e-3, electroneutral bulk, not with "
+               "-only_counter_ions; the worst deviation seen is written to the evidence); CD-MUSIC with -donnan: no relation "
                "for plane 2 is documented (see the report: it follows Gouy-Chapman only for symmetric electrolytes), none asserted; "
                "in both cases the dl_balance clause closes the charge balance",
                "dl_balance and the Donnan Gouy-Chapman clause: the layer composition g_i is renewed AFTER the last charge-balance solve "
@@ -76,7 +78,9 @@ ABSENT = -99.0
 TOL_REL = 1e-8
 TOL_MA = 4e-9                 # log10 units (= 1e-8 relative in the activity product)
 CONV_TOL = 1e-12
-TOL_BW_GRAHAME = 1e-2
+TOL_BW_GRAHAME = 2e-2
+BW_MIN_PSI = 0.050
+BW_MIN_MU = 1e-3
 SITE_ABS_TOL = 1e-15          # KNOBS -tolerance (default): absolute acceptance of a mole-balance residual, mol
 TOL_G = CONV_TOL            # the diffuse-layer composition g is iterated to |dg| <= convergence_tolerance
 # sorbing elements entered in SOLUTION (label -> formal charge used only for choosing the charge-balancing ion)
@@ -833,9 +837,10 @@ def check_case(case, ctx):
         name = {"eq": "mass_action_equations", "bal": "site_balances", "cp": "charge_potential_relations", "dl": "dl_balances"}[k]
         ctx.extra[name] = ctx.extra.get(name, 0) + stats[k]
     for k, name in (("worst_ma", "worst_mass_action_residual"), ("worst_cp", "worst_charge_potential_rel"),
-                    ("worst_sb", "worst_site_balance_rel"), ("worst_dl", "worst_dl_balance_rel")):
+                    ("worst_sb", "worst_site_balance_rel"), ("worst_dl", "worst_dl_balance_rel"),
+                    ("worst_bw", "worst_bw_grahame_rel(gross_error_clause)")):
         w = ctx.extra.get(name, [0.0])
-        ctx.extra[name] = [max(w[0], stats[k])]
+        ctx.extra[name] = [max(w[0], stats.get(k, 0.0))]
     return {"nontrivial": nt, "classes": classes}
 
 
@@ -985,16 +990,21 @@ def check_row(case, M, v, dls, state, kth, stats, where):
             cmp("Gouy-Chapman", sig[0], edl.gouy_chapman_sigma(psi[n][0], MU, EPS, TK))
         elif model == "dl_bw":
             # Borkovec-Westall layer: the excesses are numerical integrals of the Poisson-Boltzmann profile whose total charge is the
-            # Grahame charge of the mixed electrolyte.  The integration error is not tied to a documented criterion (measured on the
-            # unchanged tree: <= 3e-4 above 10 mV, several % below 1 mV), so this is only a coarse consistency clause (1e-2, >= 10 mV).
-            if not S.get("oci") and abs(psi[n][0]) >= 0.010:
+            # Grahame charge of the mixed electrolyte.  The integration error is not tied to a documented criterion.  Measured on the
+            # unchanged tree (about 60 000 rows): <= 8e-5 for |psi| >= 50 mV and I >= 1e-3; up to 3e-3 near 12 mV, 1.25e-2 at 10.6 mV
+            # with I = 1e-4 (a first version of this clause, 1e-2 from 10 mV, alarmed there once in 47 000 cases), several % below
+            # 1 mV.  Only a gross-error clause is therefore asserted: 2e-2 for |psi| >= 50 mV and I >= 1e-3; the worst deviation of
+            # every evaluated row is recorded in the evidence.
+            if not S.get("oci") and abs(psi[n][0]) >= BW_MIN_PSI and MU >= BW_MIN_MU:
                 ions = aqueous_ions(M, v)
                 imb = sum(z * c for z, c in ions)
                 pos = sum(abs(z) * c for z, c in ions)
                 g0 = edl.grahame_sigma(psi[n][0], ions, EPS, TK)
                 if abs(imb) <= 1e-9 * pos and g0 == g0:
                     stats["cp"] += 1
-                    stats["ev"].add("bw:grahame_coarse_clause_evaluated")
+                    stats["ev"].add("bw:grahame_gross_error_clause_evaluated")
+                    if max(abs(sig[0]), abs(g0)) > 0:
+                        stats["worst_bw"] = max(stats.get("worst_bw", 0.0), abs(sig[0] - g0) / max(abs(sig[0]), abs(g0)))
                     if abs(sig[0] - g0) > TOL_BW_GRAHAME * max(abs(sig[0]), abs(g0)) + floor:
                         raise Violation("charge_potential", "%s: surface %s (-diffuse_layer): sigma from the species %r C/m2, Grahame charge "
                                         "of the bulk electrolyte at psi = %r V: %r C/m2 (rel. diff %.3g > %g)"
